@@ -495,6 +495,10 @@ def mon14 : Monitor G14 where
     -- the configuration in use stays that of the first successful init: the one setting a query reads back directly
     | .auto, some c =>
       [ (post.ret = .bool c.autoUpdate, "C14: should_auto_update does not answer with the setting of the first successful init") ]
+    -- … and the callbacks registered for that configuration stay in use: every patch check reaches them
+    | .check _ _, some _ | .update _ _, some _ =>
+      [ (post.net.any (fun a => match a with | .check _ => true | _ => false),
+          "C14: a patch check did not go through the network callbacks in use since the first successful init") ]
     | _, _ => []
 
 /-! #### C20: requests identify exactly this app, release and the selected channel -/
